@@ -64,6 +64,13 @@ def make_world(seed, jitter):
                 if ex[n - 3][0] - ex[n - 4][1] - 1 >= 150:
                     cands.append(("retained-terminal-intron", [(ex[n - 4][0], ex[n - 3][1]), ex[n - 2], ex[n - 1]]))
                     cands.append(("extended-end", [ex[n - 3], ex[n - 2], (ex[n - 1][0], ex[n - 1][1] + rng.randint(420, 600))]))
+                # terminal block running 350-500 bp into an intron next to an internal exon (partly retained intron), both sides
+                k = rng.randint(1, n - 3)
+                if ex[k + 1][0] - ex[k][1] - 1 >= 700:
+                    cands.append(("end-inside-intron", ex[:k] + [(ex[k][0], ex[k][1] + rng.randint(350, 500))]))
+                k = rng.randint(2, n - 2)
+                if ex[k][0] - ex[k - 1][1] - 1 >= 700:
+                    cands.append(("end-inside-intron", [(ex[k][0] - rng.randint(350, 500), ex[k][1])] + ex[k + 1:]))
                 # 5' end running far past the annotated start while the 3' end sits exactly at the annotated end and carries a tail
                 if t.strand == "+" and ex[0][0] > 800:
                     cands.append(("extended-5prime-with-tail", [(ex[0][0] - rng.randint(420, 600), ex[0][1])] + ex[1:]))
@@ -129,7 +136,7 @@ def run(chk, scratch):
     thorough = chk.tier == "thorough"
     chk.rule = ("worlds with multi-isoform, overlapping (shared exons) and antisense genes on both strands over 3 chromosomes; conforming reads derived from annotated "
                 "isoforms (exact, 5'/3'/both-side truncated, junction jitter <= delta, exonic indels, =/X CIGAR operations with mismatching bases, polyA/polyT at the 3' end, mono-exonic) and non-conforming reads "
-                "(skipped exon >= 150 bp, extra exon, retained intron, intron retained inside a terminal exon by a read sharing its intron chain with an end-extended read, site shifted >= 110 bp, end extended >= 420 bp, 5' end extended >= 420 bp on a read whose 3' end carries a polyA/polyT tail, hidden isoforms); matching presets x data types. "
+                "(skipped exon >= 150 bp, extra exon, retained intron, intron retained inside a terminal exon by a read sharing its intron chain with an end-extended read, site shifted >= 110 bp, end extended >= 420 bp, terminal block running 350-500 bp into an intron, 5' end extended >= 420 bp on a read whose 3' end carries a polyA/polyT tail, hidden isoforms); matching presets x data types. "
                 "non-trivial = distinct (isoform exon count, read mode, jitter, polyA, preset) among judged reads whose locus has >= 2 isoforms")
     jobs = []
     presets = ["exact", "precise", "default", "loose"]
@@ -224,7 +231,7 @@ def run(chk, scratch):
                     chk.violation("only-compatible-isoform-not-unique:%s" % mode, "%s: read %s has %s as its only compatible isoform, reported %s on %s" %
                                   (desc, rd.name, T.id, atype, sorted(reported)[:4]), wit)
             elif cls in ("skipped-exon", "extra-exon", "retained-intron", "shifted-site", "extended-start", "extended-end", "hidden-isoform",
-                         "extended-5prime-with-tail", "retained-terminal-intron"):
+                         "extended-5prime-with-tail", "retained-terminal-intron", "end-inside-intron"):
                 if not overl:
                     continue
                 if all(compat.hard_difference(t.exons, aligned) for t in overl):
